@@ -49,8 +49,22 @@ func mkseg(name string, toks []sqlgen.Tok) seg {
 	return s
 }
 
+func rawTok(words ...string) []sqlgen.Tok {
+	var out []sqlgen.Tok
+	for _, w := range words {
+		out = append(out, sqlgen.Tok{S: w})
+	}
+	return out
+}
+
 // pools builds the valid and corrupt segment pools (deterministic).
 func pools() (valid, corrupt []seg) {
+	// statements whose first word is not one of the recovery synchronisation keywords
+	for _, t := range [][]sqlgen.Tok{rawTok("DESCRIBE", "t7"), rawTok("SHOW", "TABLES"), rawTok("REPLACE", "INTO", "t8", "(", "c1", ")", "VALUES", "(", "1", ")")} {
+		if v := mkseg("valid-nosync:"+t[0].S, t); v.ok {
+			valid = append(valid, v)
+		}
+	}
 	for i, s := range validStatements() {
 		v := mkseg(fmt.Sprintf("valid%d:%s", i, s.Kind), s.Toks)
 		if !v.ok {
@@ -71,6 +85,10 @@ func pools() (valid, corrupt []seg) {
 			kind string
 			toks []sqlgen.Tok
 		}{
+			{"delete-first", append([]sqlgen.Tok{}, s.Toks[1:]...)},
+			{"truncate-2", append([]sqlgen.Tok{}, s.Toks[:2]...)},
+			{"truncate-3", append([]sqlgen.Tok{}, s.Toks[:3]...)},
+			{"truncate-4", append([]sqlgen.Tok{}, s.Toks[:4]...)},
 			{"delete-second", append(append([]sqlgen.Tok{}, s.Toks[:1]...), s.Toks[2:]...)},
 			{"delete-last", append([]sqlgen.Tok{}, s.Toks[:n-1]...)},
 			{"duplicate-mid", append(append(append([]sqlgen.Tok{}, s.Toks[:n/2+1]...), s.Toks[n/2]), s.Toks[n/2+1:]...)},
@@ -84,9 +102,6 @@ func pools() (valid, corrupt []seg) {
 			}
 			corrupt = append(corrupt, c)
 		}
-	}
-	if len(corrupt) > 14 {
-		corrupt = corrupt[:14]
 	}
 	return
 }
@@ -167,7 +182,7 @@ func Check() *common.Check {
 		ID:        "C12",
 		Level:     "exploration",
 		CrashSafe: true,
-		Rule: "scripts S1;...;Sn: all sequences of n<=3 over the full pool (6 valid statements, one per kind, + up to 14 corruptions of them: token deleted / duplicated / replaced / truncated, none containing a statement-starting keyword after its first token) " +
+		Rule: "scripts S1;...;Sn: all sequences of n<=2 over the full pool (9 valid statements - one per kind plus DESCRIBE / SHOW / REPLACE, which do not start with a recovery synchronisation keyword - and every failing corruption of them: first / second / last token deleted, middle token duplicated or replaced, truncated after 2, 3, 4 tokens and at half, none containing a statement-starting keyword after its first token), n<=3 over the valid statements and an even spread of 14 corruptions " +
 			"and n<=5 (quick) / n<=6 (thorough) over 2 valid + 3 corrupt, each with and without a trailing semicolon; plus all lexeme sequences of length <=3 (quick) / <=4 (thorough) over a 24-lexeme alphabet for termination and the iff clause. " +
 			"distinct = distinct script text; non-trivial = script mixes well-formed and malformed segments",
 		Assume: []string{"a segment is well-formed iff gosqlx.Parse accepts it alone", "parser-token count of a segment = number of generator lexemes (verified at run time on the valid segments; the token-index clause is skipped when it does not hold)"},
@@ -215,7 +230,14 @@ func Check() *common.Check {
 					rec(pool, append(append([]seg{}, prefix...), s), max, tag)
 				}
 			}
-			rec(full, nil, 3, "full")
+			rec(full, nil, 2, "full")
+			// n<=3 over all valid segments and an even spread of 14 corruptions
+			mid := append([]seg{}, valid...)
+			step := len(corrupt)/14 + 1
+			for i := 0; i < len(corrupt); i += step {
+				mid = append(mid, corrupt[i])
+			}
+			rec(mid, nil, 3, "mid")
 			if len(valid) >= 2 && len(corrupt) >= 3 {
 				small := []seg{valid[0], valid[1], corrupt[0], corrupt[len(corrupt)/2], corrupt[len(corrupt)-1]}
 				max := 5
